@@ -3,6 +3,7 @@ package rules
 import (
 	"fmt"
 	"go/ast"
+	"go/token"
 	"go/types"
 	"math/big"
 	"os"
@@ -471,7 +472,7 @@ func (c *Ctx) c06WithTTL() {
 				if !ok {
 					continue
 				}
-				if t := info.TypeOf(st.X); t != nil && types.TypeString(t, nil) == "*time.Duration" {
+				if t := info.TypeOf(st.X); t != nil && types.TypeString(t, nil) == "*time.Duration" && !c.addressOfFieldOrLocal(info, fd, st.X) {
 					r.Bad("R06.3", fname, "ttl-cell-written-outside-WithTTL", c.Pos(as.Pos()), "a *time.Duration is assigned through outside WithTTL: the TTL cell of a caller's context is rewritten behind the caller's back", nil)
 				}
 			}
@@ -515,6 +516,63 @@ func (c *Ctx) c06WithTTL() {
 	if !hasViolation(r.Obls, "R06.3", "WithTTL") {
 		r.OK("R06.3", "WithTTL", fmt.Sprintf("%d paths, %d (path, ordering) cases, 13 weak orderings of (*existing, ttl, 0)", len(paths), nCases))
 	}
+}
+
+// addressOfFieldOrLocal: the pointer written through is a parameter that every caller in the package fills with the address of a
+// struct field or a local variable (a helper that completes configuration fields through pointers), or is itself such an address:
+// then it is not a cell taken out of a context.
+func (c *Ctx) addressOfFieldOrLocal(info *types.Info, fd *ast.FuncDecl, x ast.Expr) bool {
+	x = ast.Unparen(x)
+	if u, ok := x.(*ast.UnaryExpr); ok && u.Op == token.AND {
+		return true
+	}
+	id, ok := x.(*ast.Ident)
+	if !ok {
+		return false
+	}
+	obj := info.Uses[id]
+	if obj == nil || fd.Type.Params == nil {
+		return false
+	}
+	// a parameter of a non-exported function: what the package's call sites pass
+	idx, n := -1, 0
+	for _, f := range fd.Type.Params.List {
+		for _, nm := range f.Names {
+			if info.Defs[nm] == obj {
+				idx = n
+			}
+			n++
+		}
+	}
+	if idx < 0 || fd.Name.IsExported() {
+		return false
+	}
+	fobj := info.Defs[fd.Name]
+	sites, ok2 := 0, true
+	for _, file := range c.Pkg.Syntax {
+		ast.Inspect(file, func(nd ast.Node) bool {
+			call, isCall := nd.(*ast.CallExpr)
+			if !isCall {
+				return true
+			}
+			var callee types.Object
+			switch f := ast.Unparen(call.Fun).(type) {
+			case *ast.Ident:
+				callee = info.Uses[f]
+			case *ast.SelectorExpr:
+				callee = info.Uses[f.Sel]
+			}
+			if callee == nil || callee != fobj || idx >= len(call.Args) {
+				return true
+			}
+			sites++
+			if u, isAddr := ast.Unparen(call.Args[idx]).(*ast.UnaryExpr); !isAddr || u.Op != token.AND {
+				ok2 = false
+			}
+			return true
+		})
+	}
+	return sites > 0 && ok2
 }
 
 func orderName(re, rt, rz int) string {
